@@ -780,6 +780,8 @@ def c12_lazy_formats(cfg):
 
     rec = Rec("C12", cfg)
     mode = cfg["mode"]
+    if mode == "second_quantized":
+        return _c12_lazy_second_quantized(rec, cfg)
     E = [float(Fraction(x)) for x in cfg["spectrum"]]
     N = len(E)
     npar, mo, tmax = cfg["nparams"], cfg["max_order"], cfg["term_order"]
@@ -857,6 +859,83 @@ def c12_lazy_formats(cfg):
         rec.direct_violation(f"calllog of unblocked lazy series ({mode})", f"{sig}:calllog-{problem[0]}", problem[1], reproduced=True)
     else:
         rec.discharged(f"calllog of unblocked lazy series ({mode}): {n_req} fresh requests, definition evaluates zeroth order only, cone and at-most-once hold", "confirmed")
+    rec.nontrivial = n_req > 0
+    rec.sample = {"config": cfg, "requests": n_req}
+    return rec
+
+
+def _c12_lazy_second_quantized(rec, cfg):
+    """The same call-log obligations for a lazily defined series whose terms are sympy matrices of boson / spin operators
+    (the second-quantised path wraps the user's series once more to convert the terms to number-ordered form)."""
+    import itertools as it
+
+    import sympy
+    from sympy.physics.quantum import Dagger
+    from sympy.physics.quantum.boson import BosonOp
+
+    from pymablock import block_diagonalize
+    from pymablock.series import BlockSeries, zero
+
+    npar, mo = cfg["nparams"], cfg["max_order"]
+    a = BosonOp("a")
+    w, d, g, f = sympy.symbols("omega delta g f", positive=True)
+    Na = Dagger(a) * a
+    zo = (0,) * npar
+    nb = cfg.get("nblocks", 2)
+    if nb == 2:
+        H0 = sympy.Matrix([[w * Na + d, 0], [0, w * Na - d]])
+        first = [sympy.Matrix([[0, g * (a + Dagger(a))], [g * (a + Dagger(a)), 0]]), sympy.Matrix([[f * Na, f * a], [f * Dagger(a), -f * Na]])]
+        second = sympy.Matrix([[g * Na, 0], [0, -g * Na]])
+        kw = dict(subspace_indices=[0, 1])
+    else:
+        H0 = sympy.Matrix([[w * Na + d * Na * Na]])
+        first = [sympy.Matrix([[g * (a + Dagger(a))]]), sympy.Matrix([[f * (a * a + Dagger(a) * Dagger(a))]])]
+        second = sympy.Matrix([[g * Na]])
+        kw = {}
+    terms = {zo: H0}
+    for k in range(npar):
+        e = tuple(1 if j == k else 0 for j in range(npar))
+        terms[e] = first[k]
+    terms[tuple(2 if j == 0 else 0 for j in range(npar))] = second
+
+    def build():
+        log = []
+
+        def Heval(*order):
+            log.append(tuple(order))
+            return terms.get(tuple(order), zero)
+
+        H = BlockSeries(eval=Heval, shape=(), n_infinite=npar, name="H")
+        return block_diagonalize(H, **kw), log
+
+    sig = f"lazy-formats:second_quantized:nb={nb}:npar={npar}"
+    n_req = 0
+    problem = None
+    for wi, n, (bi, bj) in it.product(range(3), list(bd.orders_upto(npar, mo)), list(it.product(range(nb), repeat=2))):
+        try:
+            series, log = build()
+            bad_def = [c for c in log if c != zo]
+            series[wi][(bi, bj, *n)]
+        except Exception as e:
+            from .herm import library_exception_info
+
+            problem = ("exception", dict(request=[wi, bi, bj, *n], exception=f"{type(e).__name__}: {e}"[:300], where=library_exception_info(e, pure_inputs=True)[1]))
+            break
+        n_req += 1
+        bad_cone = [c for c in log if not all(x <= y for x, y in zip(c, n))]
+        dup = len(log) - len(set(log))
+        if bad_def:
+            problem = ("definition", dict(evaluated_at_definition=[list(c) for c in bad_def[:5]], config=cfg))
+        elif bad_cone:
+            problem = ("cone", dict(request=[wi, bi, bj, *n], outside_cone=[list(c) for c in bad_cone[:5]]))
+        elif dup:
+            problem = ("repeat", dict(request=[wi, bi, bj, *n], repeated=dup))
+        if problem:
+            break
+    if problem:
+        rec.direct_violation("calllog of a lazily defined second-quantised series", f"{sig}:calllog-{problem[0]}", problem[1], reproduced=True)
+    else:
+        rec.discharged(f"calllog of a lazily defined second-quantised series: {n_req} fresh requests, definition evaluates zeroth order only, cone and at-most-once hold", "confirmed")
     rec.nontrivial = n_req > 0
     rec.sample = {"config": cfg, "requests": n_req}
     return rec
@@ -1010,5 +1089,8 @@ def configs_c12a(tier):
     lazy.append(dict(_job="lazy_formats", mode="implicit", sizes=[2, 4], spectrum=["0", "2", "5", "9", "14", "20"], nparams=2, term_order=2, max_order=2, hermitian=True, sparse=True))
     lazy.append(dict(_job="lazy_formats", mode="implicit", sizes=[1, 1, 3], spectrum=["0", "2", "5", "9", "14"], nparams=1, term_order=3, max_order=3 if tier == "thorough" else 2, hermitian=True))
     lazy.append(dict(_job="lazy_formats", mode="indices", sizes=[2, 1], spectrum=["0", "1", "3"], nparams=1, term_order=3, max_order=2, hermitian=True, fd=[0]))
+    for nbk in (2, 1):
+        for npar in (1, 2):
+            lazy.append(dict(_job="lazy_formats", mode="second_quantized", nblocks=nbk, nparams=npar, max_order=2 if (tier == "thorough" or npar == 1) else 1, _timeout_s=900))
     jobs += [("vf.props.relations", "c12_lazy_formats", c) for c in lazy]
     return jobs
